@@ -150,6 +150,21 @@ let run_cr (a : string list) : string =
           (match m.m_reg with NotOpen -> "closed" | Open true -> "open-bad" | Open false -> "open")) sessions in
     String.concat " / " outs
 
+(* ---- text state reader: TX cv:<name>,.. b:<kw>.<type>.<name>.<kind>,.. t:<tok>,<tok>,..   tok = { | } | <word number> *)
+let run_tx (a : string list) : string =
+  let field p = List.fold_left (fun acc t ->
+      if String.length t >= String.length p && String.sub t 0 (String.length p) = p
+      then String.sub t (String.length p) (String.length t - String.length p) else acc) "" a in
+  let items s = if s = "" || s = "-" then [] else String.split_on_char ',' s in
+  let cvs = List.map (fun x -> n_of_int (int_of_string x)) (items (field "cv:")) in
+  let bs = List.filter_map (fun x ->
+      match String.split_on_char '.' x with
+      | [kw; ty; nm; kd] -> Some { b_kw = n_of_int (int_of_string kw); b_type = n_of_int (int_of_string ty);
+                                   b_name = n_of_int (int_of_string nm); b_kind = nat_of_int (int_of_string kd) }
+      | _ -> None) (items (field "b:")) in
+  let toks = List.map (fun x -> if x = "{" then TO else if x = "}" then TC else TW (n_of_int (int_of_string x))) (items (field "t:")) in
+  if load_c cvs bs toks then "err" else "ok"
+
 let () =
   try
     while true do
@@ -157,6 +172,7 @@ let () =
       match words line with
       | "MS" :: a -> print_endline (run_ms a)
       | "CR" :: a -> print_endline (run_cr a)
+      | "TX" :: a -> print_endline (run_tx a)
       | [] -> ()
       | _ -> print_endline "?"
     done
